@@ -155,10 +155,12 @@ Proof.
     intros k' Hk'. specialize (Hchain (Z.of_nat k') ltac:(lia)). cbv zeta in Hchain.
     destruct Hchain as [Hnk0 [_ Hyes]].
     assert (Hfull : (a / 2 ^ ((L + Z.of_nat k' + 1) * h) + 1) * 2 ^ h <= N / 2 ^ ((L + Z.of_nat k') * h)).
-    { apply (group_inside_block N h a (L + Z.of_nat k') lv' lo'); try lia.
-      - unfold a; nia.
-      - exists c'. exact Hc'.
-      - nia. }
+    { assert (Hkk : L + Z.of_nat k' + 1 <= L') by lia.
+      assert (Ha0 : 0 <= a) by (unfold a; apply Z.mul_nonneg_nonneg; lia).
+      assert (HMl : (L + Z.of_nat k' + 1) * h <= lv').
+      { apply Z.le_trans with (L' * h); [apply Z.mul_le_mono_nonneg_r; lia|lia]. }
+      apply (group_inside_block N h a (L + Z.of_nat k') lv' lo'); try lia.
+      exists c'. exact Hc'. }
     pose proof (pow2_pos h ltac:(lia)).
     rewrite (Hyes ltac:(lia)). cbn [tW tH]. lia.
 Qed.
@@ -215,7 +217,7 @@ Theorem make_plan_ok N h ix :
 Proof.
   intros Hh HN HF. unfold make_plan.
   destruct (sub_tree_ok 0 N ltac:(lia) ltac:(lia) (aligned_0 N ltac:(lia))) as [bs [Ebs HB]].
-  unfold sub_tree_index. replace (N - 0) with N in Ebs by lia. rewrite Ebs. cbn [bind lift_res tbind app].
+  unfold sub_tree_index. rewrite Ebs. cbn [bind lift_res tbind app].
   (* phase 1 *)
   assert (Hstx : forall stx ord tiles,
             (forall x, In x stx -> 0 <= x < 2 ^ 63) -> exists r, plan_stx h N stx ord tiles = TOk r).
